@@ -34,7 +34,7 @@ inductive Stmt where
   | thr (e : Expr)
   | tryS (body : List Stmt) (catchVar : Option String) (handler : List Stmt) (fin : Option (List Stmt))
   | labelled (label : String) (body : List Stmt)  -- l: { … }  (a labelled block: `break l` leaves it)
-  | switchS (e : Expr) (cases : List (Int × List Stmt)) (dflt : Option (List Stmt))
+  | switchS (e : Expr) (cases : List (Int × List Stmt)) (dflt : Option (List Stmt)) (dpos : Nat)   -- the default clause is printed before case number `dpos`
   deriving Repr, Inhabited
 
 inductive Completion where
@@ -172,15 +172,23 @@ def exec : Nat → St → Stmt → Completion × St
         match c3 with
         | .normal => (c2, s3)        -- the finalizer completed normally: the pending completion stands
         | _ => (c3, s3)              -- an abrupt finalizer overrides it
-    | .switchS e cases dflt =>
+    | .switchS e cases dflt dpos =>
       (match eval s e with
        | none => (.thr refErr, s)
        | some v =>
-        let dl : List (List Stmt) := match dflt with | some d => [d] | none => []
-        let bodies : List (List Stmt) :=
+        -- the clauses in source order: the default stands before case number `dpos`
+        let p := min dpos cases.length
+        let clauses : List (List Stmt) :=
+          match dflt with
+          | some d => (cases.take p).map (·.2) ++ [d] ++ (cases.drop p).map (·.2)
+          | none => cases.map (·.2)
+        -- every case is tested (in order) before the default is considered; execution then
+        -- falls through the clauses that follow the selected one in source order
+        let start : Option Nat :=
           match cases.findIdx? (fun c => c.1 == v) with
-          | some i => (cases.drop i).map (·.2) ++ dl   -- fall through the following clauses, the default (printed last) included
-          | none => dl
+          | some i => some (if dflt.isSome && p ≤ i then i + 1 else i)
+          | none => if dflt.isSome then some p else none
+        let bodies : List (List Stmt) := match start with | some k => clauses.drop k | none => []
         let (c, s') := execLists fuel (pushScope s) bodies
         let s'' := popScope s'
         match c with
@@ -263,15 +271,23 @@ def renderS : Stmt → String
           | some x => " catch (" ++ x ++ ") { " ++ x ++ " = N(" ++ x ++ "); " ++ renderL handler ++ "}"
           | none => if handler.isEmpty && fin.isSome then "" else " catch { " ++ renderL handler ++ "}")
       ++ (match fin with | some f => " finally { " ++ renderL f ++ "}" | none => "")
-  | .switchS e cases dflt =>
-    "switch (" ++ renderE e ++ ") { " ++ renderCases cases
-      ++ (match dflt with | some d => "default: " ++ renderL d | none => "") ++ "}"
+  | .switchS e cases dflt dpos =>
+    "switch (" ++ renderE e ++ ") { "
+      ++ (match dflt with
+          | some d => renderCasesD (some (min dpos cases.length)) ("default: " ++ renderL d) cases
+          | none => renderCasesD none "" cases)
+      ++ "}"
 def renderL : List Stmt → String
   | [] => ""
   | s :: rest => renderS s ++ " " ++ renderL rest
-def renderCases : List (Int × List Stmt) → String
-  | [] => ""
-  | (v, b) :: rest => "case " ++ toString v ++ ": " ++ renderL b ++ renderCases rest
+/-- the case clauses, with the default clause `d` printed before case number `k` (`none`: already printed / absent) -/
+def renderCasesD : Option Nat → String → List (Int × List Stmt) → String
+  | some _, d, [] => d
+  | none, _, [] => ""
+  | k, d, (v, b) :: rest =>
+    let pre := match k with | some 0 => d | _ => ""
+    let k' := match k with | some (n + 1) => some n | _ => none
+    pre ++ "case " ++ toString v ++ ": " ++ renderL b ++ renderCasesD k' d rest
 end
 
 /-- the whole program: a function body, its log and its completion -/
